@@ -60,3 +60,13 @@ Theorem C10_marlin_check_is_affine_in_values :
                 r = rest /\ (b = true <-> marlin_residual vk C az bz vs z pf = 0).
 Proof. exact @mcheck_accept_iff. Qed.
 Print Assumptions C10_marlin_check_is_affine_in_values.
+
+(* Ligero: the relation the column checks decide - for the committed rows, the inner product of any vector b with the
+   j-th encoded column is the j-th symbol of the encoding of the b-combination of the rows (linearity of the code) *)
+From PC Require Import Schemes.CalcT Schemes.Ligero Proofs.LigeroFacts.
+Theorem C10_ligero_column_relation :
+  forall (FO : FieldOps) (FL : FieldLaws FO) omega n_ext n_cols rows b j,
+    Forall (fun r => (length r <= n_cols)%nat) rows -> (j < n_ext)%nat ->
+    ip b (col j (map (encode omega n_ext) rows)) = nth j (encode omega n_ext (rowcomb rows n_cols b)) 0.
+Proof. exact @column_check_complete. Qed.
+Print Assumptions C10_ligero_column_relation.
